@@ -131,7 +131,7 @@ def check_value_entry(ctx, fx):
                       "no remove_ascii_tab_or_newline (set the username/password percent-encodes them)",
                       "%s removes ASCII tab/newline, but the Standard's 'set the username/password' keeps them (percent-encoded)"
                       % f["qname"], where=f["loc"].replace("/repo/", ""))
-    ctx.floor("T7", n, 10, "URLPattern canonicalisers")
+    ctx.floor("T7", n, 8, "URLPattern canonicalisers")
     ctx.floor("T7", nparse, 2, "whole-URL parser calls inside canonicalisers")
 
 
@@ -251,7 +251,7 @@ def check_canonicaliser_sets(ctx, fx):
                   "%s refers to the sets %s; the component's canonical form is defined with %s alone, so a byte that is in that set but "
                   "not in the other one is scanned over or left unencoded" % (f["qname"], used, sorted(allowed)),
                   where=[l for r, l in refs if r not in allowed][0].replace("/repo/", "") if any(r not in allowed for r, l in refs) else f["loc"].replace("/repo/", ""))
-    ctx.floor("T5", n, 4, "URLPattern canonicalisers that percent-encode")
+    ctx.floor("T5", n, 2, "URLPattern canonicalisers that percent-encode")
 
 
 def simple_set(fx, f, sem):
@@ -342,7 +342,7 @@ def check(ctx, fx):
                   "process_%s calls %s; allowed for this component: %s" % (w, calls or "no canonicaliser", sorted(CANON_ALLOWED[w])),
                   where=f["loc"].replace("/repo/", ""))
     n += check_change_state(ctx, fx)
-    ctx.floor("T3", n, 100, "slot-bearing statements")
+    ctx.floor("T3", n, 90, "slot-bearing statements")
 
     # ---- T4 -----------------------------------------------------------------------
     fpc = fx.fn1(NS + "canonicalize_protocol")
